@@ -557,12 +557,75 @@ fn ops(req: &Value) -> Value {
     json!({"obs": obs, "final": fin})
 }
 
+/// C05 (run-time side): the six `t*_plural*!` macros on a count, next to the CLDR category ICU4X gives for the locale
+fn plural_macros(req: &Value) -> Value {
+    use leptos_i18n::reexports::icu::plurals::{PluralCategory, PluralRuleType, PluralRules};
+    use leptos_i18n::{t_plural, t_plural_ordinal, td_plural, td_plural_ordinal, tu_plural, tu_plural_ordinal};
+    let l = locale_of(req["locale"].as_str().expect("locale"));
+    let counts: Vec<u64> = req["counts"].as_array().expect("counts").iter().map(|c| c.as_u64().expect("count")).collect();
+    fn name(c: PluralCategory) -> &'static str {
+        match c {
+            PluralCategory::Zero => "zero",
+            PluralCategory::One => "one",
+            PluralCategory::Two => "two",
+            PluralCategory::Few => "few",
+            PluralCategory::Many => "many",
+            PluralCategory::Other => "other",
+        }
+    }
+    let icu: &leptos_i18n::reexports::icu::locid::Locale = l.as_icu_locale();
+    let card = PluralRules::try_new(&icu.into(), PluralRuleType::Cardinal).expect("cardinal rules");
+    let ord = PluralRules::try_new(&icu.into(), PluralRuleType::Ordinal).expect("ordinal rules");
+    let owner = Owner::new();
+    let out = owner.with(|| {
+        let ctx = init_i18n_context_with_options(
+            I18nContextOptions::<Locale>::default().enable_cookie(false).ssr_lang_header_getter(lang_opts(None)),
+        );
+        ctx.set_locale_untracked(l);
+        // `t_*` (tracked) give an accessor closure, `td_*` / `tu_*` the form itself
+        macro_rules! forms {
+            ($mac:ident, $first:expr, $n:expr) => {{
+                let n: u64 = $n;
+                let f = $mac!($first, count = move || n, zero => "zero", one => "one", two => "two", few => "few", many => "many", _ => "other");
+                f().to_string()
+            }};
+        }
+        macro_rules! form {
+            ($mac:ident, $first:expr, $n:expr) => {{
+                let n: u64 = $n;
+                $mac!($first, count = move || n, zero => "zero", one => "one", two => "two", few => "few", many => "many", _ => "other").to_string()
+            }};
+        }
+        let rows: Vec<Value> = counts
+            .iter()
+            .map(|&n| {
+                json!({
+                    "count": n,
+                    "td_plural": form!(td_plural, l, n),
+                    "td_plural_ordinal": form!(td_plural_ordinal, l, n),
+                    "t_plural": forms!(t_plural, ctx, n),
+                    "t_plural_ordinal": forms!(t_plural_ordinal, ctx, n),
+                    "tu_plural": form!(tu_plural, ctx, n),
+                    "tu_plural_ordinal": form!(tu_plural_ordinal, ctx, n),
+                    "cldr_cardinal": name(card.category_for(n)),
+                    "cldr_ordinal": name(ord.category_for(n)),
+                })
+            })
+            .collect();
+        json!({"rows": rows})
+    });
+    exec::drain();
+    drop(owner);
+    out
+}
+
 fn handle(req: &Value) -> Value {
     let op = req["op"].as_str().unwrap_or("");
     match op {
         "locales" => locales(),
         "parse_tags" => parse_tags(req),
         "resolve" => resolve(req),
+        "plural_macros" => plural_macros(req),
         "ops" => ops(req),
         _ => json!({"bad_op": format!("unknown op {op}")}),
     }
